@@ -150,4 +150,5 @@ def make_jobs(out, tier, seed, stores=None, label=None, light=False):
         b0 = list(a0) if rng.random() < 0.5 else rng.sample(pool, rng.randint(0, 5))
         evs = [{"op": "new", "A0": a0, "B0": b0}, {"op": "iso", "g": "A", "h": "B"}, {"op": "iso", "g": "B", "h": "A"}]
         jobs.append({"cfg": {"stores": rng.choice(ST), "vocab": "plain"}, "events": evs})
-    out.conform(__name__, TRACE, jobs, nontrivial=nontrivial, chunk=300, par=16, heap="2g", **({"label": label} if label else {}))
+    q_ = tier == "quick"      # (the thorough tier's histories are longer: smaller batches per TLC run, more heap)
+    out.conform(__name__, TRACE, jobs, nontrivial=nontrivial, chunk=300 if q_ else 100, par=16 if q_ else 8, heap="2g" if q_ else "5g", **({"label": label} if label else {}))
